@@ -30,8 +30,9 @@ def scan_assumptions():
 
 def write(prop, tier, seed, jobs, results, wall, nviol, knownhits):
     byname = {j.name: j for j in jobs}
-    proof = [r for r in results if byname[r["job"]].mode in ("M1", "M2")]
-    bounded = [r for r in results if byname[r["job"]].mode == "M3"]
+    # a job with a stated bound (mode M3, or a contract job whose harness restricts the input domain) is never counted as proof
+    proof = [r for r in results if byname[r["job"]].mode in ("M1", "M2") and not byname[r["job"]].bounded]
+    bounded = [r for r in results if byname[r["job"]].mode == "M3" or byname[r["job"]].bounded]
     obligations = sum(r.get("obligations", 0) for r in proof)
     discharged = sum(r.get("discharged", 0) for r in proof)
     enforced = set()
